@@ -9,6 +9,6 @@ require (
 	gopkg.in/yaml.v2 v2.4.0
 )
 
-require golang.org/x/sys v0.19.0 // indirect
+require golang.org/x/sys v0.19.0
 
 replace github.com/elastic/go-seccomp-bpf => /repo
